@@ -143,10 +143,12 @@ type ProbeResult struct {
 }
 
 type RepeatDiff struct {
-	Iter  int    `json:"iter"`
-	What  string `json:"what"`
-	First string `json:"first"`
-	Other string `json:"other"`
+	// OnlyExamples: the two outputs are JSON documents that differ only inside "example" strings
+	OnlyExamples bool   `json:"onlyExamples,omitempty"`
+	Iter         int    `json:"iter"`
+	What         string `json:"what"`
+	First        string `json:"first"`
+	Other        string `json:"other"`
 }
 
 type SeqResult struct {
